@@ -231,8 +231,10 @@ class Run:
             self.trace.append("a")
             self.check_membership("discover")
         elif kind == "services":
-            _, p, ss = op
-            self.net.discover_services(self.subject(p, []), [SERVICES[s] for s in ss])
+            p, ss = op[1], op[2]
+            svc = [SERVICES[s] for s in ss]
+            # the parameter is annotated Iterable: a list, or (4th element set) a one-shot iterator
+            self.net.discover_services(self.subject(p, []), iter(svc) if len(op) > 3 and op[3] else svc)
             self.model.advertise(p, ss)
         elif kind == "remove_peer":
             p = op[1]
@@ -540,7 +542,7 @@ def _exhaustive_shard(ctx: Ctx, shard: int, nshards: int, depth: int) -> None:
 # a second, focused alphabet: one peer, one service, removals that are not followed by the oracle's own lookups
 FOCUS = [
     ["add", 0, [0]], ["add", 0, [2]], ["services", 0, [0]], ["query", "service", 0], ["query", "walk", 0, 0],
-    ["remove_peer", 0, None, 1], ["remove_addr", 0, 1], ["add", 1, [0]],
+    ["remove_peer", 0, None, 1], ["remove_addr", 0, 1], ["add", 1, [0]], ["services", 0, [0], 1],
 ]
 
 
@@ -580,6 +582,7 @@ def _strategies():
         st.tuples(st.just("add"), peer, addrs1).map(list),
         st.tuples(st.just("discover"), peer, addrs1, addr, st.one_of(st.none(), svc), st.integers(0, 1)).map(list),
         st.tuples(st.just("services"), peer, st.lists(svc, min_size=1, max_size=2, unique=True)).map(list),
+        st.tuples(st.just("services"), peer, st.lists(svc, min_size=1, max_size=2, unique=True), st.just(1)).map(list),
         st.tuples(st.just("remove_peer"), peer).map(list),
         st.tuples(st.just("remove_peer"), peer, addrs).map(list),
         st.tuples(st.just("remove_peer"), peer, st.none() | addrs, st.just(1)).map(list),
